@@ -190,3 +190,25 @@ PLAN["C19"] = {
     ],
     "scope_note": "Verus: fill_random wf unbounded. Kani: complete per size LutN 0..12, Lut 0..12 against the rand contract-model.",
 }
+
+
+PLAN["C02"] = {
+    "level": "proof",
+    "technique": "induction over the public API on the representation invariant wf: Verus contracts on the real kernels (wf established by fill_one/zero/random, preserved by not/set_bit/unset_bit/flip/swap/swap_adjacent/cofactor0/1/from_cofactors/next for all n < 64) + machine-checked extensionality lemma; Kani contract triples per size for the constructors, logic operators, wrappers and conversions that Verus cannot take, and for == / cmp against an explicit distinguishing assignment",
+    "level_text": "wf (block count = max(1,2^n/64), no bit >= 2^n) is proved by Verus to be established/preserved by every slice kernel it can take, for every n < 64 and every in-range argument, and lemma_ext proves that two wf tables agreeing on every assignment are identical word for word. Kani proves per size (all sizes 0..6 where the invariant has content, with symbolic indices; multi-word sizes to 12/14) that every constructor establishes wf over its whole argument domain, that the logic operators, single-bit mutators, transforms, iterator items and conversions preserve it, and that ==, cmp==Equal and equality of all values coincide (a distinguishing assignment is computed when the blocks differ).",
+    "level_note": "Trusted: derived PartialEq/Eq/Hash hash and compare exactly the stored (num_vars, words); Verus/Z3/vstd, Kani/CBMC, rustc. The parser (from_hex_string) is covered under C09 (bounded); canonization outputs are copies of tables produced by the kernels above (frame of the *_ind loops, C04).",
+    "verus_units": ["kernels", "theory"],
+    "kani_units": ["spec_ops.rs", "c02_repr.rs"],
+    "kani_filters": {"quick": ["c02q_"], "thorough": ["c02t_"]},
+    "kani_scope": {r"_s_|conv": "complete(LutN, fixed N: all tables, all in-range arguments)", r"_d_": "complete(Lut, fixed n: all tables, all in-range arguments)"},
+    "harness_timeout": {"quick": 600, "thorough": 3600},
+    "functions": ["operations::" + f for f in _KERNEL_FUNCS] + ["lemma_ext (extensionality)",
+                  "Lut::/StaticLut::{every constructor, from_blocks, blocks, value, get_bit, set_bit, unset_bit, set_value, logic operators, flip, swap, swap_adjacent, cofactors, from_cofactors, all_functions}",
+                  "From<u8/u16/u32/u64> for Lut3..6, From<StaticLut> for Lut, TryFrom<Lut> for StaticLut", "PartialEq / Ord of both types"],
+    "assumptions": _VERUS_ASSUMED + [
+        "derived PartialEq/Eq/Hash/Clone/Copy are structural (trusted)",
+        "histories: the induction step is per operation; closing it over arbitrary call sequences is the standard invariant argument (every public entry point is covered by one obligation; from_blocks requires wf of its argument, as the property states)",
+        "from_hex_string results: see C09 (bounded n <= 4/5)",
+    ],
+    "scope_note": "Verus: kernels unbounded. Kani: complete per size; symbolic indices for n <= 8.",
+}
